@@ -15,7 +15,8 @@ EXPLANATION = (
     "ScenarioOutline, Examples, Step, Tag, Table, table rows, doc-string Text) receives the parser's current line (Text: "
     "the line of the opening quotes), and in every line loop the line counter is incremented before anything can skip "
     "the line. P5: the cell split pattern, as a regex AST, is 'pipe not preceded by a backslash', the row is split "
-    "without its outer pipes, and exactly the escaped pipe is unescaped.")
+    "without its outer pipes, and exactly the escaped pipe is unescaped. P6: every builder that hands the pending tags to a "
+    "model element rebinds self.tags to a fresh list afterwards (tags belong to exactly the statement they precede).")
 NOT_DECIDED = ("text fidelity of names, descriptions, tags, cells and doc-string dedent (string contents, e.g. a '#' "
                "inside a tag name); parse_file decoding; the renderers in model_describe; full trace equivalence with a "
                "reference grammar machine (P4 of the design) was not built - the machine exploration decides P2 and, "
@@ -30,6 +31,7 @@ def t_struct(chk, ix):
     rules_parser.check_keyword_table(chk, ix)
     rules_parser.check_line_numbers(chk, ix)
     rules_parser.check_cell_splitter(chk, ix)
+    rules_parser.check_tags_consumed(chk, ix, "P6")
 
 
 def run(chk, ix, tier):
@@ -39,3 +41,4 @@ def run(chk, ix, tier):
     chk.require_instances("P1", 60)
     chk.require_instances("P3", 12)
     chk.require_instances("P5", 3)
+    chk.require_instances("P6", 5)
